@@ -60,6 +60,12 @@ func c07Graphs(thorough bool) []c07Graph {
 			want: []string{"b", "a", "page"}, data: map[string]any{"fromfill": "FF"}, wantTxt: []string{"PT/FF", "PT|FF", "PT FF"}},
 		c07Graph{desc: "layout-frontmatter-collides", files: map[string]string{"p.vuego": c07Page("a"), "layouts/a.vuego": "---\ntitle: LT\n---\n" + `<div data-m="a"><i>{{ title }}</i><div v-html="content"></div></div>`},
 			want: []string{"a", "page"}, data: map[string]any{"fromfill": "FF", "title": "FILLT"}, wantTxt: []string{"PT FF", "<i>LT</i>"}},
+		// an inner layout's own front-matter is its own: the layouts further out still see the page's front-matter and the Fill data
+		c07Graph{desc: "inner-layout-frontmatter-stays-inner", files: map[string]string{"p.vuego": c07Page("a"),
+			"layouts/a.vuego": "---\ntitle: LT\nfromfill: LF\nlayout: b\n---\n" + `<div data-m="a"><i>{{ title }}/{{ fromfill }}</i><div v-html="content"></div></div>`,
+			"layouts/b.vuego": "---\nlayout: c\n---\n" + `<div data-m="b"><b>{{ title }}|{{ fromfill }}</b><div v-html="content"></div></div>`,
+			"layouts/c.vuego": c07Layout("c", "", "<u>{{ title }}+{{ fromfill }}</u>")},
+			want: []string{"c", "b", "a", "page"}, data: map[string]any{"fromfill": "FF"}, wantTxt: []string{"PT FF", "<i>LT/LF</i>", "<b>PT|FF</b>", "<u>PT+FF</u>"}},
 	)
 	gs = append(gs,
 		c07Graph{desc: "default-base-ignores-sibling-base", files: map[string]string{"pages/p.vuego": c07Page(""), "pages/base.vuego": c07Layout("sibling-base", "", ""), "layouts/base.vuego": c07Layout("base", "", "")}, page: "pages/p.vuego", want: []string{"base", "page"}},
